@@ -406,6 +406,10 @@ func (db *DB) AcquireRemoteHaltLock(ctx context.Context, lockID int64) (_ *HaltL
 	}
 	defer func() {
 		if retErr != nil {
+			// The lock is given back: this node does not hold it, so it must not
+			// go on counting itself writable because of it.
+			db.remoteHaltLock.CompareAndSwap(haltLock, (*HaltLock)(nil))
+
 			if err := db.store.Client.ReleaseHaltLock(ctx, info.AdvertiseURL, db.store.ID(), db.name, haltLock.ID); err != nil {
 				log.Printf("cannot release remote halt lock after acquisition error: %s", err)
 			}
